@@ -29,6 +29,26 @@ def make_residual(spec, lo=None, hi=None):
     if kind == "linear":
         A, b = linear_data(n, m, pseed, spec.get("cond", 10.0), spec.get("scale", 1.0), spec.get("bscale", 1.0))
         return lambda x: A @ x - b
+    if kind == "target":
+        # r = w*(x - t) [+ one coupling row] [+ sqrt traps]: minimiser at clip(t) => chosen bounds are active at the solution
+        t = np.array(spec["t"], dtype=float)
+        w = np.array(spec["w"], dtype=float)
+        cpl = np.array(spec["couple"], dtype=float) if spec.get("couple") is not None else None
+        lo_ = gen_arr(lo, n, -np.inf)
+        hi_ = gen_arr(hi, n, np.inf)
+        fl, fh = np.isfinite(lo_), np.isfinite(hi_)
+        trap = bool(spec.get("trap"))
+
+        def f(x):
+            parts = [w * (x - t)]
+            if cpl is not None:
+                parts.append(np.array([0.1 * float(cpl @ (x - t))]))
+            if trap and fl.any():
+                parts.append(0.01 * np.sqrt(x[fl] - lo_[fl]))
+            if trap and fh.any():
+                parts.append(0.01 * np.sqrt(hi_[fh] - x[fh]))
+            return np.concatenate(parts)
+        return f
     rng = np.random.default_rng([int(pseed), 11])
     A = rng.normal(size=(m, n)) * spec.get("scale", 1.0)
     b = rng.normal(size=m)
@@ -65,6 +85,12 @@ def make_residual(spec, lo=None, hi=None):
     if kind == "quadres":
         return lambda x: (A @ x - b) + 0.05 * (A @ x - b) ** 3
     raise ValueError(kind)
+
+
+def gen_arr(v, n, fill):
+    if v is None:
+        return np.full(n, fill)
+    return np.array([fill if e is None else e for e in v], dtype=float)
 
 
 class NoisyFun(object):
@@ -236,6 +262,17 @@ def gen_box(rng, n, one_sided_p=0.3, offset_p=0.3, scale_p=0.5, place_p=0.6, tig
     lo = rng.normal(size=n) * off
     gap = (0.5 + rng.random(n) * 3) * scale
     hi = lo + gap
+    if rng.random() < 0.6:
+        # "human" decimal bounds chosen independently of each other: then lo + (hi - lo) != hi for ~20% of pairs,
+        # which is what exposes one-ulp overshoots when un-scaling (a box built as hi = lo + gap hides them)
+        for j in range(n):
+            q = 10.0 ** (int(np.floor(np.log10(gap[j]))) - int(rng.integers(1, 4)))
+            lo[j] = float(np.round(lo[j] / q)) * q
+            hi[j] = float(np.round(hi[j] / q)) * q
+            lo[j] = float("%.12g" % lo[j])
+            hi[j] = float("%.12g" % hi[j])
+            if not hi[j] > lo[j]:
+                hi[j] = lo[j] + gap[j]
     gap = hi - lo  # as representable
     x0 = lo + rng.random(n) * gap
     for j in range(n):
